@@ -107,6 +107,7 @@ class TaskSet : public TaskSetBase {
   DISPENSO_REQUIRES(OnceCallableFunc<F>)
   void schedule(F&& f) {
     if (DISPENSO_EXPECT(canceled(), false)) {
+      discardSkipped(f);
       return;
     }
     if (outstandingTaskCount_.load(std::memory_order_relaxed) > taskSetLoadFactor_ &&
@@ -330,6 +331,7 @@ class ConcurrentTaskSet : public TaskSetBase {
           return;
         }
         if (DISPENSO_EXPECT(canceled(), false)) {
+          discardSkipped(f);
           return;
         }
         detail::InlineDepthGuard depthGuard;
@@ -473,6 +475,7 @@ class ConcurrentTaskSet : public TaskSetBase {
           return;
         }
         if (DISPENSO_EXPECT(canceled(), false)) {
+          discardSkipped(f);
           return;
         }
         detail::InlineDepthGuard depthGuard;
